@@ -57,7 +57,12 @@ func labKern(e labEnv) {
 				var res *result.Results
 				var err error
 				status := 0
-				func() {
+				// the run gets 20 s of real time (its own bound is a few seconds): one that has not returned by then is
+				// reported as such (status 3) and left behind
+				t0 := time.Now()
+				done := make(chan struct{})
+				go func() {
+					defer close(done)
 					defer func() {
 						if r := recover(); r != nil {
 							status = 2
@@ -65,6 +70,13 @@ func labKern(e labEnv) {
 					}()
 					res, err = tr.RunTraceroute(context.Background(), p)
 				}()
+				select {
+				case <-done:
+				case <-time.After(20 * time.Second):
+					outs[i] = L(sxInt(3), sxBool(false), sxList{}, sxInt(time.Since(t0).Milliseconds()))
+					return
+				}
+				elapsedMs := time.Since(t0).Milliseconds()
 				var ns *sack.NotSupportedError
 				if status != 2 && err != nil {
 					status = 1
@@ -79,7 +91,7 @@ func labKern(e labEnv) {
 						hops = append(hops, L(sxInt(int64(h.TTL)), sxBytes(ip), sxBool(h.IsDest), sxBool(h.RTT < 0)))
 					}
 				}
-				outs[i] = L(sxInt(int64(status)), sxBool(err != nil && errors.As(err, &ns)), hops)
+				outs[i] = L(sxInt(int64(status)), sxBool(err != nil && errors.As(err, &ns)), hops, sxInt(elapsedMs))
 			}(i)
 		}
 		wg.Wait()
